@@ -349,7 +349,7 @@ theorem zeroSbs_spec (l r rows : Nat) (h1 : l + 1 ≤ usizeMax) (h2 : r + 1 ≤ 
   have hr' : r ≤ usizeMax := by omega
   refine ⟨(⟨some ⟨true, false, some l, some r⟩, some ⟨false, true, some l, some r⟩⟩ : SbsRow) :: rs, ?_, ?_⟩
   · simp [zeroSbs, zeroWrappedState, St.ofCode, zeroRowsSbs, zeroPanels, zeroPanelOrder, paintLine, linenumbersAndStyles,
-      lookupArm, numberArms, St.code, incrementFor, incrementRule, panelCode, bumpN, addUsize, emitFor, lookupEmit,
+      lookupArm, numberArms, St.code, incrementFor, incrementRule, panelCode, bumpN, addUsize, addUsizeSat, emitFor, lookupEmit,
       emitArms, hl, hr', h1, h2, hr]
   · simp [hs, SbsRow.shown, Cell.left, Cell.right]
 
